@@ -4,8 +4,13 @@ EXTENDS Retention, Json, SequencesExt
 \* instants are ticks relative to the clock reading PureNow; the harness maps a tick to a unit of its
 \* choice (2 s .. 1 h) and the clock reading to the middle of (PureNow-1, PureNow)
 PureNow == 10
+\* durations: 0 = unlimited, 1..7 ticks, and two very long FINITE durations (98 = about 250 years, 99 = the longest
+\* duration the catalogue can hold, about 292 years): end + duration lies beyond every clock reading, so such a shard
+\* is never expired - and beyond what 64-bit nanoseconds since 1970 can express, which is where the arithmetic of the
+\* expiry test must not wrap around
+LongDurations == {98, 99}
 PureCases == {[kind |-> k, e |-> e, d |-> d, tz |-> z, exp |-> RawExpired(d, e, PureNow)] :
-                 k \in {"open", "lazy", "nil"}, e \in 0..12, d \in 0..7, z \in {"utc", "east", "west"}}
+                 k \in {"open", "lazy", "nil"}, e \in 0..12, d \in (0..7) \cup LongDurations, z \in {"utc", "east", "west"}}
 PureSpec == Init /\ [][FALSE]_vars
 \* (a constant-level definition: TLC evaluates it once when it starts, which prints the case list)
 PureExport == PrintT(<<"TRACE", ToJson(SetToSeq(PureCases))>>)
